@@ -165,7 +165,8 @@ func runC36(c *core.Ctx) {
 		"(*txnpool/proc.TXPoolServer).verifyBlock":      "transactions of a block proposed by consensus (frozen exception)",
 		"(*txnpool/proc.TXPoolServer).reVerifyStateful": "",
 	}
-	for _, caller := range cg.Callers(atwFn) {
+	_ = cg
+	for _, caller := range c.P.EffectiveCallers(atwFn, func(y *ssa.Function) bool { _, ok := allowed[ir.FuncName(y)]; return ok }) {
 		_, ok := allowed[ir.FuncName(caller)]
 		c.Decide(ok, "C36.who-may-admit", atwFn, "caller "+ir.FuncName(caller)+" is a known admission path", c.P.Rel(caller.Pos()), "")
 	}
